@@ -29,6 +29,8 @@ SOURCE = {
  G + "TuplePh": (["T"], [], [(None, "u8")]),
  G + "TwoUnused": (["A", "B"], [], [("x", "u8")]),
  G + "CowG": (["T"], [], [("c", ("cow", item(G + "G", P("T")))), ("q", ("deque", P("T"))), ("b", ("box", item(G + "G", "u8")))]),
+ G + "Matrix": (["T"], [], [("rows", ("vec", ("vec", P("T")))), ("pairs", ("vec", ("tup", [P("T"), "bool"]))), ("arr", ("arr", ("vec", P("T")), 2)), ("opt", ("opt", ("vec", P("T"))))]),
+ G + "Tagged": (["T"], [], [("id", "u32")]),
  G + "MyBox": (["T"], [], [(None, P("T"))]),
  G + "UsesMyBox": (["T"], [], [("plain", item(G + "MyBox", "u8")), ("generic", item(G + "MyBox", P("T"))), ("real", ("box", item(G + "MyBox", P("T")))), ("v", ("vec", item(G + "MyBox", "u16")))]),
  "replay::corpus::compact::CompG": (["T"], [], [("value", ("compact", P("T"))), ("other", "u8")]),
@@ -158,7 +160,7 @@ def make_family(name, reg0, st, root=None):
 def families(eng, tier, seed):
     C = corpus(); fams = []
     sets = [STD, Settings(["mod_name rt", "compact_path ::c::Compact", "bits_path b::Bits", "codec_attrs", "alloc ::alloc", "docs 0"])] + ([Settings(["compact_path ::c::Compact", "bits_path ::b::Bits"])] if tier == "thorough" else [])
-    for n in ("generics", "modules", "phantom", "two_unused", "cow_generic", "compact_generic", "bits_generic", "reach", "compact_as", "tree", "assoc_noskip", "assoc_same", "mybox"):
+    for n in ("generics", "modules", "phantom", "two_unused", "cow_generic", "compact_generic", "bits_generic", "reach", "compact_as", "tree", "assoc_noskip", "assoc_same", "mybox", "matrix", "tagged"):
         r = C[n]
         for si, st in enumerate(sets):
             if n not in ("assoc_noskip",): fams.append(make_family("program-%s-s%d" % (n, si), r, st))
